@@ -1,4 +1,5 @@
 import Proofs.JsrVersion
+import Proofs.JsrSpec
 /-!
 # C06 — JSR requirements resolve to the specified version
 
@@ -222,6 +223,162 @@ theorem not_excluded_keeps_date (d : Nat) (excluded prefixes : List (List Char))
     simp only [Bool.or_eq_false_iff, List.contains_eq_mem, decide_eq_false_iff_not, List.any_eq_false]
     exact ⟨h1, fun p hp => by simp [h2 p hp]⟩
   simp only [this, Bool.false_eq_true, if_false]
+
+
+/-! ## graph level: the cached-manifest probe and its memo (`probe_cached_jsr_version_manifests`) -/
+
+/-- the fold's answer depends only on which candidates the list holds -/
+theorem best_congr (l l' : List (Nat × Option VInfo))
+    (h : ∀ p, (p ∈ l ∧ Cand sat cutoff p) ↔ (p ∈ l' ∧ Cand sat cutoff p)) :
+    (resolveVersion sat cutoff l).best = (resolveVersion sat cutoff l').best := by
+  rcases hb : (resolveVersion sat cutoff l).best with _ | b
+  · symm
+    rw [resolveVersion_none_iff] at hb ⊢
+    intro p hp' hc
+    exact hb p ((h p).mpr ⟨hp', hc⟩).1 hc
+  · symm
+    rw [resolveVersion_is_max] at hb ⊢
+    obtain ⟨⟨p, hpm, h1, h2⟩, hmax⟩ := hb
+    exact ⟨⟨p, ((h p).mp ⟨hpm, h2⟩).1, h1, h2⟩, fun q hq hc => hmax q ((h q).mpr ⟨hq, hc⟩).1 hc⟩
+
+/-- the emptiness guard before tier 1.5 is redundant -/
+theorem cached_guard_redundant (C : List Nat) :
+    (if C.isEmpty then none else (resolveVersion sat cutoff (cachedList infos C)).best) =
+      (resolveVersion sat cutoff (cachedList infos C)).best := by
+  split
+  · rename_i he
+    have : C = [] := by simpa using he
+    subst this
+    have : cachedList infos [] = [] := by
+      simp only [cachedList, List.map_eq_nil_iff, List.filter_eq_nil_iff]
+      intro p _; simp
+    rw [this]; rfl
+  · rfl
+
+/-- **tier 1.5 only looks at unyanked versions satisfying the requirement**: two cached sets
+that agree on those give the same resolution -/
+theorem cached_set_irrelevant_outside_matches (C W : List Nat)
+    (h : ∀ p ∈ infos, p.2.yanked = false → sat p.1 = true → (p.1 ∈ C ↔ p.1 ∈ W)) :
+    resolveTiers sat cutoff infos existing C = resolveTiers sat cutoff infos existing W := by
+  have hb : (resolveVersion sat cutoff (cachedList infos C)).best =
+      (resolveVersion sat cutoff (cachedList infos W)).best := by
+    apply best_congr
+    intro p
+    simp only [cachedList, List.mem_map, List.mem_filter, Bool.and_eq_true, Bool.not_eq_true',
+      List.contains_eq_mem, decide_eq_true_eq]
+    constructor
+    · rintro ⟨⟨q, ⟨hq, hy, hc⟩, rfl⟩, hcand⟩
+      exact ⟨⟨q, ⟨hq, hy, (h q hq hy hcand.1).mp hc⟩, rfl⟩, hcand⟩
+    · rintro ⟨⟨q, ⟨hq, hy, hc⟩, rfl⟩, hcand⟩
+      exact ⟨⟨q, ⟨hq, hy, (h q hq hy hcand.1).mpr hc⟩, rfl⟩, hcand⟩
+  unfold resolveTiers
+  rw [cached_guard_redundant, cached_guard_redundant, hb]
+
+/-- when tier 1 answers, the cached set is never read -/
+theorem tier1_ignores_cached (C W : List Nat)
+    (h : unificationDecides sat existing = true) :
+    resolveTiers sat cutoff infos existing C = resolveTiers sat cutoff infos existing W := by
+  rw [unification_decides_iff_tier1, Option.isSome_iff_exists] at h
+  obtain ⟨v, hv⟩ := h
+  rw [(selected_wins sat cutoff infos existing C v hv).1, (selected_wins sat cutoff infos existing W v hv).1]
+
+/-- what the memo holds for a package is what cache-only probes found among the probed versions -/
+def MemoInv (reg : Registry) (m : Memo) : Prop :=
+  ∀ name v, v ∈ (m.get name).2 ↔ (v ∈ (m.get name).1 ∧ v ∈ reg.cachedManifests name)
+
+theorem memoInv_empty (reg : Registry) : MemoInv reg [] := by
+  intro name v
+  simp [Memo.get]
+
+theorem memo_get_setKey_self (m : Memo) (name : Nat) (x : List Nat × List Nat) :
+    Memo.get (setKey name x m) name = x := by
+  simp [Memo.get, lookup_setKey_self]
+
+theorem memo_get_setKey_ne (m : Memo) (name n2 : Nat) (x : List Nat × List Nat) (h : n2 ≠ name) :
+    Memo.get (setKey name x m) n2 = Memo.get m n2 := by
+  simp [Memo.get, lookup_setKey_ne _ _ _ _ h]
+
+/-- the probe keeps the memo faithful -/
+theorem probe_inv (reg : Registry) (m : Memo) (name req : Nat) (infos : List (Nat × VInfo))
+    (h : MemoInv reg m) : MemoInv reg (probe reg m name req infos).1 := by
+  intro n2 v
+  unfold probe
+  simp only
+  split
+  · -- nothing to probe: the entry is rewritten unchanged
+    by_cases hn : n2 = name
+    · subst hn
+      rw [memo_get_setKey_self]
+      exact h n2 v
+    · rw [memo_get_setKey_ne _ _ _ _ hn]
+      exact h n2 v
+  · by_cases hn : n2 = name
+    · subst hn
+      rw [memo_get_setKey_self]
+      simp only [List.mem_append, List.mem_filter, List.contains_eq_mem, decide_eq_true_eq]
+      have := h n2 v
+      constructor
+      · rintro (hc | ⟨hc, hw⟩)
+        · exact ⟨Or.inl (this.mp hc).1, (this.mp hc).2⟩
+        · exact ⟨Or.inr hc, hw⟩
+      · rintro ⟨hp | hp, hw⟩
+        · exact Or.inl (this.mpr ⟨hp, hw⟩)
+        · exact Or.inr ⟨hp, hw⟩
+    · rw [memo_get_setKey_ne _ _ _ _ hn]
+      exact h n2 v
+
+/-- after the probe every unyanked version satisfying the requirement has been probed -/
+theorem probe_covers (reg : Registry) (m : Memo) (name req : Nat) (infos : List (Nat × VInfo))
+    (p : Nat × VInfo) (hp : p ∈ infos) (hy : p.2.yanked = false) (hs : reg.sat req p.1 = true) :
+    p.1 ∈ ((probe reg m name req infos).1.get name).1 := by
+  have hmem : p.1 ∈ (m.get name).1 ∨ p.1 ∈ probeCandidates (reg.sat req) infos (m.get name).1 := by
+    by_cases hpr : p.1 ∈ (m.get name).1
+    · exact Or.inl hpr
+    · right
+      simp only [probeCandidates, List.mem_map, List.mem_filter]
+      exact ⟨p, ⟨hp, by simp [hy, hs, hpr]⟩, rfl⟩
+  unfold probe
+  simp only
+  split
+  · rename_i hemp
+    rw [memo_get_setKey_self]
+    rcases hmem with h | h
+    · exact h
+    · have : probeCandidates (reg.sat req) infos (m.get name).1 = [] := by simpa using hemp
+      rw [this] at h
+      exact absurd h (by simp)
+  · rw [memo_get_setKey_self]
+    simp only [List.mem_append]
+    exact hmem
+
+/-- **the memoised probe is unobservable**: whatever was probed earlier in the pass, the version
+selected for a pending item is the one the four tiers give for the set of manifests really in the
+cache (or for no cache information when the option is off) -/
+theorem probe_memo_irrelevant (reg : Registry) (s : P1) (it : Item) (infos : List (Nat × VInfo))
+    (hm : MemoInv reg s.memo) :
+    resolveTiers (reg.sat it.req) (reg.cutoff it.name) infos (s.table.versionsByName it.name)
+        (probeStep reg s it infos).2.2 =
+      resolveTiers (reg.sat it.req) (reg.cutoff it.name) infos (s.table.versionsByName it.name)
+        (if reg.preferCached then reg.cachedManifests it.name else []) ∧
+    MemoInv reg (probeStep reg s it infos).1 := by
+  unfold probeStep
+  by_cases hpc : reg.preferCached = true
+  · by_cases hu : unificationDecides (reg.sat it.req) (s.table.versionsByName it.name) = true
+    · simp only [hpc, hu, Bool.not_true, Bool.false_or, if_true]
+      exact ⟨tier1_ignores_cached _ _ _ _ _ _ hu, hm⟩
+    · simp only [hpc, hu, Bool.not_true, Bool.false_or, Bool.false_eq_true, if_false, if_true]
+      have hinv := probe_inv reg s.memo it.name it.req infos hm
+      refine ⟨?_, hinv⟩
+      apply cached_set_irrelevant_outside_matches
+      intro p hp hy hs
+      have hcov := probe_covers reg s.memo it.name it.req infos p hp hy hs
+      have := hinv it.name p.1
+      constructor
+      · intro hc; exact (this.mp hc).2
+      · intro hw; exact this.mpr ⟨hcov, hw⟩
+  · have : reg.preferCached = false := by simpa using hpc
+    simp only [this, Bool.not_false, Bool.true_or, if_true, Bool.false_eq_true, if_false]
+    exact ⟨trivial, hm⟩
 
 /-- non-vacuity: 1.0.0 (old), 1.1.0 (yanked), 1.2.0 (newer than the cutoff); `^1` -/
 def demoInfos : List (Nat × VInfo) :=
